@@ -13,11 +13,12 @@ walked node by node.  Only pure stdlib helpers on *constants* are folded
 (``'a'.lower()``, ``struct.calcsize``, ``1 << 20``).
 """
 import ast
+import os
 
 from .loader import AnalysisError
 from .values import (K, T, Obj, ListV, TupleV, SetV, DictV, FuncRef, ClassRef,
                      ExtRef, ModRef, AbsFunc, PropertyV, StaticV,
-                     ClassMethodV, RegexV, same, show)
+                     ClassMethodV, RegexV, NTupleV, NTClass, same, show)
 
 MAX_PATHS = 4096
 MAX_STEPS = 200000
@@ -260,6 +261,9 @@ class Interp:
 
     def inexact(self, why):
         self.exact = False
+        if os.environ.get('SA_DEBUG_INEXACT'):
+            import traceback
+            traceback.print_stack(limit=14)
         if why not in self.notes:
             self.notes.append(why)
 
@@ -432,6 +436,8 @@ class Interp:
             return self.call_func(f, list(args), kwargs)
         if isinstance(f, ClassRef):
             return self.instantiate(f, list(args), kwargs)
+        if isinstance(f, NTClass):
+            return self.make_ntuple(f, f, list(args), kwargs)
         if isinstance(f, Obj):
             m = self.get_attr(f, '__call__', missing_ok=True)
             if m is not None:
@@ -445,9 +451,8 @@ class Interp:
             r = self.on_call(self, name, f, args, kwargs)
             if r is not NotImplemented:
                 return r
-        if len(args) >= 2 and (isinstance(args[1], K) and
-                               isinstance(args[0], (RegexV, K)) or
-                               isinstance(args[0], T)):
+        if len(args) >= 2 and name not in self.pure_calls and (
+                isinstance(args[0], (RegexV, K)) or isinstance(args[0], T)):
             # a constant pattern applied to a constant subject is computed;
             # a pattern that is data forks on matched / not / re.error
             from . import rxmodel
@@ -455,6 +460,20 @@ class Interp:
                 r = rxmodel.on_call(self, name, f, args, kwargs)
                 if r is not NotImplemented:
                     return r
+        if name in ('setattr', 'delattr', 'vars', 'globals', 'locals',
+                    'exec', 'eval', 'object.__setattr__',
+                    'object.__delattr__', 'operator.setitem',
+                    'operator.delitem'):
+            # reflective access to the state the interpreter tracks
+            raise Inexact('call of %s is not modelled' % name)
+        if name.rsplit('.', 1)[-1] in (
+                'callback', 'push', 'enter_context',
+                'add_done_callback', 'call_later',
+                'call_soon', 'submit', 'start_new_thread') and \
+                name not in self.pure_calls:
+            # an unmodelled object is handed something to call later
+            raise Inexact('call of %s (deferred call on an unmodelled '
+                          'object)' % name)
         targs = tuple(self.termify(a) for a in args) + tuple(
             T('kw', k, self.termify(v)) for k, v in sorted(kwargs.items()))
         self.effect('call', name, targs)
@@ -553,11 +572,16 @@ class Interp:
                 return self.eval(node.body, fr)
             finally:
                 self.frames.pop()
-        if _is_generator(node) and self.on_yield is None:
+        inline = getattr(f, 'run_inline', None)
+        if inline is None:
+            # a rule may drive a generator function directly (interp.on_yield)
+            inline = self.on_yield
+        if _is_generator(node) and inline is None:
             if getattr(f, 'is_ctxmgr', False):
                 return CtxGenV(f, args, kwargs)
             return GenV(f, args, kwargs)
         fr = Frame(f, env, len(self.frames))
+        fr.on_yield = inline    # only the frame run by run_generator yields
         self.frames.append(fr)
         try:
             self.exec_block(node.body, fr)
@@ -601,7 +625,80 @@ class Interp:
     def eval_in_module(self, expr, f, fr):
         return self.eval(expr, fr)
 
+    def make_ntuple(self, nt, cls, args, kwargs):
+        """Instance of a named tuple class (or of a class derived from it)
+        from positional / keyword arguments and the declared defaults."""
+        n = len(nt.fields)
+        if len(args) > n:
+            raise AbsRaise(T('exc', 'TypeError', 'too many arguments'))
+        items = list(args) + [None] * (n - len(args))
+        for k, v in kwargs.items():
+            if k not in nt.fields or items[nt.fields.index(k)] is not None:
+                raise AbsRaise(T('exc', 'TypeError', 'unexpected argument'))
+            items[nt.fields.index(k)] = v
+        first_default = n - len(nt.defaults)
+        for i in range(n):
+            if items[i] is None:
+                if i < first_default:
+                    raise AbsRaise(T('exc', 'TypeError',
+                                     'missing argument'))
+                items[i] = nt.defaults[i - first_default]
+        return NTupleV(items, nt.fields, cls)
+
+    def ntuple_attr(self, base, name):
+        """Attribute of a named tuple instance (None: not one of its own)."""
+        if name in base.names:
+            return base.items[base.names.index(name)]
+        nt = base.cls if isinstance(base.cls, NTClass) else \
+            base.cls.nt_base()
+        if name == '_fields':
+            return K(tuple(base.names))
+        if name == '__class__':
+            return base.cls
+        if name == '_asdict':
+            return AbsFunc('_asdict', lambda i2, a, kw: DictV(
+                [(K(f), v) for f, v in zip(base.names, base.items)]))
+        if name == '_replace':
+            def replace(i2, a, kw):
+                merged = dict(zip(base.names, base.items))
+                for k, v in kw.items():
+                    if k not in merged:
+                        raise AbsRaise(T('exc', 'ValueError',
+                                         'unexpected field'))
+                    merged[k] = v
+                return NTupleV([merged[f] for f in base.names], base.names,
+                               base.cls)
+            return AbsFunc('_replace', replace)
+        if isinstance(base.cls, ClassRef):
+            v, _owner = base.cls.lookup(name)
+            if v is not None:
+                return self.bind_member(v, base, base.cls)
+        return None
+
+    def ntclass_attr(self, nt, cls, name):
+        if name == '_fields':
+            return K(tuple(nt.fields))
+        if name == '__name__':
+            return K(nt.name if cls is nt else cls.name)
+        if name == '_field_defaults':
+            k = len(nt.fields) - len(nt.defaults)
+            return DictV([(K(f), v) for f, v in zip(nt.fields[k:],
+                                                    nt.defaults)])
+        if name == '_make':
+            return AbsFunc('_make', lambda i2, a, kw: i2.make_ntuple(
+                nt, cls, list(i2.unpack(a[0], len(nt.fields))
+                              if isinstance(a[0], T) else
+                              i2.iterate(a[0])), {}))
+        return None
+
     def instantiate(self, cls, args, kwargs):
+        nt = cls.nt_base()
+        if nt is not None:
+            if cls.lookup('__new__')[0] is not None or \
+                    cls.lookup('__init__')[0] is not None:
+                raise Inexact('named tuple subclass with its own '
+                              'constructor')
+            return self.make_ntuple(nt, cls, args, kwargs)
         exts = cls.ext_bases()
         obj = Obj(cls)
         init, owner = cls.lookup('__init__')
@@ -703,16 +800,100 @@ class Interp:
                 return StaticV(v)
             if dv.name == 'classmethod':
                 return ClassMethodV(v)
+            if dv.name == 'functools.singledispatch' and \
+                    isinstance(v, FuncRef):
+                return self.make_dispatcher(v, fr)
             if dv.name in ('abc.abstractmethod', 'functools.wraps',
                            'contextlib.contextmanager'):
                 if isinstance(v, FuncRef) and \
                         dv.name == 'contextlib.contextmanager':
                     v.is_ctxmgr = True
                 return v
+        if isinstance(dv, AbsFunc):
+            # a decorator the interpreter built itself (register of a
+            # single-dispatch function, functools.wraps(f), a partial)
+            return dv.behaviour(self, [v], {})
+        if isinstance(dv, (FuncRef, ClassRef)) and isinstance(v, FuncRef):
+            # a decorator defined in the repo: run it on the function; what
+            # it returns (usually a closure around the function) is what
+            # the name is bound to
+            saved = (len(self.frames), self.steps)
+            try:
+                r = self.call(dv, [v])
+                if isinstance(r, (FuncRef, Obj, PropertyV, StaticV,
+                                  ClassMethodV)):
+                    return r
+            except (AbsRaise, Inexact, _PathCut):
+                del self.frames[saved[0]:]
         name = dv.name if isinstance(dv, ExtRef) else show(dv)
         if isinstance(v, FuncRef):
             v.decorators = getattr(v, 'decorators', []) + [name]
         return v
+
+    def make_dispatcher(self, default, fr):
+        """functools.singledispatch(default): a callable object choosing the
+        implementation by isinstance tests on the first argument, latest
+        registration of the most specific type first (registrations of
+        unrelated types cannot both match; a registration for a base class
+        of another registered type is tried after it)."""
+        from . import models
+        disp = Obj(None, {}, label='singledispatch(%s)' % default.name)
+        registry = []       # (type value, implementation)
+
+        def register(i2, a, kw):
+            if len(a) == 2:
+                registry.append((a[0], a[1]))
+                return a[1]
+            if len(a) == 1 and isinstance(a[0], FuncRef):
+                f = a[0]
+                params = f.node.args.args
+                ann = params[0].annotation if params else None
+                if ann is None:
+                    raise Inexact('register() without a type')
+                ty = i2.eval(ann, Frame(f, dict(fr.env), 0))
+                registry.append((ty, f))
+                return f
+            if len(a) == 1:
+                ty = a[0]
+
+                def deco(i3, b, kw3):
+                    registry.append((ty, b[0]))
+                    return b[0]
+                return AbsFunc('register(%s)' % show(i2.termify(ty)), deco)
+            raise Inexact('register() form not modelled')
+
+        def specific_first():
+            order = list(reversed(registry))
+            # a subclass registered earlier still wins over its base
+            def rank(entry):
+                ty = entry[0]
+                n = 0
+                for other, _f in registry:
+                    if other is not ty and isinstance(ty, ClassRef) and \
+                            isinstance(other, ClassRef) and \
+                            other.is_subclass(ty):
+                        n += 1
+                if isinstance(ty, ExtRef) and ty.name == 'object':
+                    n += 1000
+                return n
+            return sorted(order, key=rank)
+
+        def dispatch_for(i2, arg):
+            for ty, impl in specific_first():
+                if i2.truth(models.isinstance_(i2, arg, ty)):
+                    return impl
+            return default
+
+        def call(i2, a, kw):
+            if not a:
+                raise AbsRaise(T('exc', 'TypeError',
+                                 'requires at least 1 positional argument'))
+            return i2.call(dispatch_for(i2, a[0]), a, kw)
+        disp.fields['__call__'] = AbsFunc('singledispatch.__call__', call)
+        disp.fields['register'] = AbsFunc('register', register)
+        disp.fields['__name__'] = K(default.name)
+        disp.fields['__wrapped__'] = default
+        return disp
 
     def st_ClassDef(self, s, fr):
         fr.env[s.name] = self.world.make_class(self, s, fr)
@@ -800,6 +981,24 @@ class Interp:
                             self.termify(v))
             else:
                 fr.env[t.id] = v
+        elif isinstance(t, (ast.Tuple, ast.List)) and any(
+                isinstance(e, ast.Starred) for e in t.elts):
+            # a, *rest = v: the starred name takes what the others leave
+            star = [i for i, e in enumerate(t.elts)
+                    if isinstance(e, ast.Starred)]
+            if len(star) != 1:
+                raise Inexact('two starred targets')
+            items = list(self.iterate(v))
+            before, after = star[0], len(t.elts) - star[0] - 1
+            if len(items) < before + after:
+                raise AbsRaise(T('exc', 'ValueError', 'unpack'))
+            for e, x in zip(t.elts[:before], items[:before]):
+                self.assign(e, x, fr)
+            self.assign(t.elts[star[0]].value,
+                        ListV(items[before:len(items) - after]), fr)
+            for e, x in zip(t.elts[star[0] + 1:],
+                            items[len(items) - after:]):
+                self.assign(e, x, fr)
         elif isinstance(t, (ast.Tuple, ast.List)):
             items = self.unpack(v, len(t.elts), t)
             for e, x in zip(t.elts, items):
@@ -913,25 +1112,17 @@ class Interp:
     def run_generator(self, gen, consume):
         """Run generator *gen* inline; *consume(value)* is called at every
         yield (it may raise _GenStop to abandon the generator)."""
-        saved = self.on_yield
-
         def on_yield(interp, v):
-            self.on_yield = saved
-            try:
-                consume(v)
-            finally:
-                self.on_yield = on_yield
+            consume(v)
             return K(None)
-        self.on_yield = on_yield
         try:
             f = gen.func
             unbound = FuncRef(f.node, f.module, f.cls, None, f.closure,
                               f.name)
+            unbound.run_inline = on_yield
             self.call_func(unbound, list(gen.args), gen.kwargs)
         except _GenStop:
             pass
-        finally:
-            self.on_yield = saved
 
     def st_For(self, s, fr):
         it = self.eval(s.iter, fr)
@@ -1105,6 +1296,18 @@ class Interp:
                 n = fixed
             elif it in self.iter_lens:
                 n = self.iter_lens[it]
+            elif self.guide is None and it.op == 'mcall' and \
+                    it.args[1] in ('split', 'rsplit') and \
+                    len(it.args) == 4 and isinstance(it.args[3], K) and \
+                    isinstance(it.args[3].v, int) and \
+                    0 <= it.args[3].v <= 3:
+                # x.split(sep, m): between 1 and m + 1 pieces
+                n = 1 + self.choose(it.args[3].v + 1)
+                self.iter_lens[it] = n
+                self.assumptions.append((T('len', it), n))
+            elif self.guide is None and it.op == 'mcall' and \
+                    it.args[1] in ('partition', 'rpartition'):
+                n = 3
             elif self.guide is not None and self._guided_len(it) is not None:
                 n = self._guided_len(it)
                 self.iter_lens[it] = n
@@ -1144,13 +1347,21 @@ class Interp:
                     state['entered'] = True
                     if item.optional_vars is not None:
                         self.assign(item.optional_vars, v, fr)
-                    if n_item + 1 < len(s.items):
-                        self.st_With(s, fr, first=n_item + 1)
-                    else:
-                        self.exec_block(s.body, fr)
+                    # return / break / continue in the body: the manager is
+                    # left normally (the generator resumes after its yield),
+                    # then the jump takes effect
+                    try:
+                        if n_item + 1 < len(s.items):
+                            self.st_With(s, fr, first=n_item + 1)
+                        else:
+                            self.exec_block(s.body, fr)
+                    except (_Return, _Break, _Continue) as jump:
+                        state['jump'] = jump
                 self.run_generator(m, consume)
                 if not state['entered']:
                     raise Inexact('generator context manager did not yield')
+                if 'jump' in state:
+                    raise state['jump']
                 return
             entered = self.ctx_enter(m)
             if item.optional_vars is not None:
@@ -1175,6 +1386,11 @@ class Interp:
             f = self.get_attr(m, '__enter__', missing_ok=True)
             if f is not None:
                 return self.call(f, [])
+        if isinstance(m, FuncRef):
+            raise Inexact('function %s used as a context manager%s' % (
+                m.name, ' (wrapped by %s)' % ', '.join(
+                    getattr(m, 'decorators', [])) if getattr(
+                        m, 'decorators', None) else ''))
         self.effect('enter', self.termify(m))
         return T('entered', self.termify(m))
 
@@ -1326,6 +1542,17 @@ class Interp:
             if base.fields.get('__open__'):
                 return T('attr', self.termify(base), name)
             raise AbsRaise(T('exc', 'AttributeError', name))
+        if isinstance(base, NTupleV):
+            r = self.ntuple_attr(base, name)
+            if r is not None:
+                return r
+        if isinstance(base, NTClass):
+            r = self.ntclass_attr(base, base, name)
+            if r is not None:
+                return r
+            if missing_ok:
+                return None
+            return T('attr', self.termify(base), name)
         if isinstance(base, ClassRef):
             v, owner = base.lookup(name)
             if v is not None:
@@ -1334,6 +1561,10 @@ class Interp:
                 if isinstance(v, StaticV):
                     return v.func
                 return v
+            if base.nt_base() is not None:
+                r = self.ntclass_attr(base.nt_base(), base, name)
+                if r is not None:
+                    return r
             if name == '__name__':
                 return K(base.name)
             if missing_ok:
@@ -1660,10 +1891,11 @@ class Interp:
         return DictV(self._comp(e, fr, 'dict'))
 
     def ex_Yield(self, e, fr):
-        if self.on_yield is None:
+        h = getattr(fr, 'on_yield', None)
+        if h is None:
             raise Inexact('yield')
         v = self.eval(e.value, fr) if e.value is not None else K(None)
-        return self.on_yield(self, v)
+        return h(self, v)
 
 
 def _subst(t, old, new, memo):
